@@ -674,48 +674,115 @@ theorem C06_leaky_max_form_counterexample :
     (leakyMaxForm 2 (D.var (-1))).tan = 1 ∧ (D.relu (D.var (-1)) 2).tan = 2 := by
   decide +kernel
 
-/-! ## binary(use_stochastic_rounding=True) in the training phase — recorded finding
+/-! ## binary(use_stochastic_rounding=True) in the training phase
 
-  `x = f * _round_through(x / f, True, 0.125)` with `f = 2·min(max|x|, 1)` differentiable: the tangent of
-  the carrier is `x' + f'·(r − x/f)` (`r` the rounded quotient): the rounding residue of EVERY element leaks
-  into the gradient of the arg-max element. -/
+  `x = f * _round_through(x / f, True, 0.125)` with `f = tf.stop_gradient(2·min(max|x|, 1))` (repaired by
+  95def59; before, `f` was differentiable and the arg-max element of every scale group received the rounding
+  residues of all elements).  `f` below is ANY dual number — whatever tangent `2 * m` carries — the model
+  applies the code's stop_gradient to it. -/
 
-theorem C06_binary_sr_train_tan (t : Tie) (f : D) (hf : f.val ≠ 0) (u : ℚ) (x : D) :
-    (binSRTrainX t f u x).tan
-      = x.tan + f.tan * (D.stochRoundV (1/8) u (x.val / f.val) - x.val / f.val) := by
+/-- FULL theorem (was `C06_binary_sr_train_partial`, which needed `f.tan = 0`): the training carrier is
+    straight-through for EVERY element, the arg-max element of a group with `max|x| ≤ 1` included -/
+theorem C06_binary_sr_train_grad (t : Tie) (f : D) (hf : f.val ≠ 0) (u : ℚ) (x : D) :
+    (binSRTrainX t f u x).tan = x.tan := by
   unfold binSRTrainX
+  simp only [D.mul, D.div, D.sg, C06_roundThroughS_tan]
+  field_simp
+  ring
+
+/-- forward value of the training carrier: `f · stochastic_round(x / f, 1/8)` (not touched by the repair) -/
+theorem C06_binary_sr_train_val (t : Tie) (f : D) (u : ℚ) (x : D) :
+    (binSRTrainX t f u x).val = f.val * D.stochRoundV (1/8) u (x.val / f.val) := by
+  unfold binSRTrainX
+  rw [show (D.mul (D.sg f) (D.roundThroughS t (binSRRnd u) (D.div x (D.sg f)))).val
+        = f.val * (D.roundThroughS t (binSRRnd u) (D.div x (D.sg f))).val from rfl,
+      C06_roundThroughS_train_val t (binSRRnd u) rfl rfl]
+  rfl
+
+/-- the repair does not move the forward value: stopped and un-stopped carriers have the same value -/
+theorem C06_binary_sr_unstopped_val (t : Tie) (f : D) (u : ℚ) (x : D) :
+    (binSRTrainXUnstopped t f u x).val = (binSRTrainX t f u x).val := rfl
+
+/-- what the stop_gradient is for — closed form of the leak of the un-stopped expression: the tangent is
+    `x' + f'·(r − x/f)` (`r` the rounded quotient): through `f'` the rounding residue of EVERY element reaches
+    the arg-max element -/
+theorem C06_binary_sr_unstopped_tan (t : Tie) (f : D) (hf : f.val ≠ 0) (u : ℚ) (x : D) :
+    (binSRTrainXUnstopped t f u x).tan
+      = x.tan + f.tan * (D.stochRoundV (1/8) u (x.val / f.val) - x.val / f.val) := by
+  unfold binSRTrainXUnstopped binSRRnd
   simp only [D.mul, D.div, D.roundThroughS, if_true, D.add, D.sg, D.neg, D.stochRound]
   field_simp
   ring
 
-/-- provable part: where `f` does not depend on the input (every element but the arg-max, or
-    `max|x| > 1`, or `f` under stop_gradient) the carrier is straight-through -/
-theorem C06_binary_sr_train_partial (t : Tie) (f : D) (hf : f.val ≠ 0) (h0 : f.tan = 0) (u : ℚ) (x : D) :
-    (binSRTrainX t f u x).tan = x.tan := by
-  rw [C06_binary_sr_train_tan t f hf, h0]; ring
+/-- where `f` carries no tangent (every element but the arg-max, `max|x| > 1`) the two forms coincide -/
+theorem C06_binary_sr_unstopped_agrees (t : Tie) (f : D) (h0 : f.tan = 0) (u : ℚ) (x : D) :
+    binSRTrainXUnstopped t f u x = binSRTrainX t f u x := by
+  have : D.sg f = f := by cases f; simp_all [D.sg]
+  unfold binSRTrainXUnstopped binSRTrainX
+  rw [this]
 
-/-- constant-scale binary in training, `f` independent of the input: gradient 1 -/
-theorem C06_binary_sr_partial (t : Tie) (phase : Bool) (th th' : ℚ → ℚ) (f : D) (hf : f.val ≠ 0)
-    (h0 : f.tan = 0) (u x : ℚ) (xq : D) :
+/-- binary with a scale (constant, 'auto', 'auto_po2'), flag set, EITHER learning phase, every draw, every
+    `f` (any tangent), every quantized tensor: gradient 1 (was `C06_binary_sr_partial` with `f.tan = 0`) -/
+theorem C06_binary_sr_grad (t : Tie) (phase : Bool) (th th' : ℚ → ℚ) (f : D) (hf : f.val ≠ 0)
+    (u x : ℚ) (xq : D) :
     (binSRD t phase false th th' f u (D.var x) xq).tan = 1 := by
-  unfold binSRD
+  unfold binSRD binSRWith
   rw [C06_steMix_tan]
   cases phase
   · simp [D.var]
   · simp only [if_true, Bool.false_eq_true, if_false, one_mul]
-    rw [C06_binary_sr_train_partial t f hf h0]; rfl
+    rw [C06_binary_sr_train_grad t f hf]; rfl
+
+/-- … and its forward value is the quantized tensor -/
+theorem C06_binary_sr_val (t : Tie) (phase alphaNone : Bool) (th th' : ℚ → ℚ) (f : D) (u : ℚ) (x xq : D) :
+    (binSRD t phase alphaNone th th' f u x xq).val = xq.val := by
+  unfold binSRD binSRWith
+  rw [C06_steMix_val]; ring
+
+/-- unscaled binary (alpha=None) with the flag: the gradient is `tanh'` AT THE CARRIER — the input itself in
+    phase 0, the stochastically rounded input `f·stochastic_round(x/f, 1/8)` in training (recorded finding
+    C06-binary-sr-train-tanh-at-rounded: not `tanh'(x)`); nothing else enters (no leak through `f`) -/
+theorem C06_binary_sr_tanh_grad (t : Tie) (phase : Bool) (th th' : ℚ → ℚ) (f : D) (hf : f.val ≠ 0)
+    (u x : ℚ) (xq : D) :
+    (binSRD t phase true th th' f u (D.var x) xq).tan
+      = th' (if phase then f.val * D.stochRoundV (1/8) u (x / f.val) else x) := by
+  unfold binSRD binSRWith
+  rw [C06_steMix_tan]
+  cases phase
+  · simp [D.var, D.fn]
+  · simp only [if_true, one_mul, D.fn]
+    rw [C06_binary_sr_train_grad t f hf, C06_binary_sr_train_val]
+    simp [D.var]
 
 /-- learning phase 0: exactly `binTerD` (the flag changes nothing in the gradient path) -/
 theorem C06_binary_sr_infer (t : Tie) (alphaNone : Bool) (th th' : ℚ → ℚ) (f : D) (u : ℚ) (x xq : D) :
     binSRD t false alphaNone th th' f u x xq = binTerD alphaNone th th' x xq := by
-  unfold binSRD binTerD; simp
+  unfold binSRD binSRWith binTerD; simp
 
-/-- COUNTEREXAMPLE (known finding C06-binary-sr-train-leak): an element x_j = 5/16 (tangent 0 w.r.t. the
-    arg-max element), f = 1 with tangent 2 (max|x| = 1/2 at a positive arg-max), draw 0: the output
-    y_j = 3/8 has derivative 1/8 w.r.t. the arg-max element — the identity surrogate has 0 there -/
-theorem C06_binary_sr_train_counterexample :
-    (binSRD .even true false (fun _ => 0) (fun _ => 0) ⟨1, 2⟩ 0 ⟨5 / 16, 0⟩ (D.const 1)).tan = 1 / 8 := by
+/-- REGRESSION WITNESS of 95def59 (the former counterexample, known finding C06-binary-sr-train-leak): an
+    element x_j = 5/16 (tangent 0 w.r.t. the arg-max element), 2·m = 1 with tangent 2 (max|x| = 1/2 at a
+    positive arg-max), draw 0.  The output y_j = 3/8 no longer depends on the arg-max element (derivative 0,
+    as for the identity surrogate); the un-stopped expression gave 1/8 -/
+theorem C06_binary_sr_train_fixed_witness :
+    (binSRD .even true false (fun _ => 0) (fun _ => 0) ⟨1, 2⟩ 0 ⟨5 / 16, 0⟩ (D.const 1)).tan = 0 ∧
+    (binSRUnstoppedD .even true false (fun _ => 0) (fun _ => 0) ⟨1, 2⟩ 0 ⟨5 / 16, 0⟩ (D.const 1)).tan = 1 / 8 ∧
+    (binSRTrainX .even ⟨1, 2⟩ 0 ⟨5 / 16, 0⟩).val = 3 / 8 := by
   decide +kernel
+
+/-- … and the arg-max element itself (x_i = 1/2, tangent 1, 2·m = 1 with tangent 2): gradient 1; the un-stopped
+    expression is straight-through there only because 1/2 / 1 is already a multiple of 1/8 -/
+theorem C06_binary_sr_train_fixed_witness_argmax :
+    (binSRD .even true false (fun _ => 0) (fun _ => 0) ⟨1, 2⟩ 0 (D.var (1 / 2)) (D.const 1)).tan = 1 := by
+  decide +kernel
+
+/-- COUNTEREXAMPLE (known finding C06-binary-sr-train-tanh-at-rounded, kept): alpha=None, training, x = 5/16,
+    f = 1, draw 0 → the carrier is 3/8 and the gradient is `tanh'(3/8)`, for EVERY derivative function — the
+    documented surrogate has `tanh'(5/16)` -/
+theorem C06_binary_sr_train_tanh_at_rounded_counterexample (th th' : ℚ → ℚ) (ft : ℚ) (xq : D) :
+    (binSRD .even true true th th' ⟨1, ft⟩ 0 (D.var (5 / 16)) xq).tan = th' (3 / 8) := by
+  rw [C06_binary_sr_tanh_grad _ _ _ _ _ (by simp)]
+  have : D.stochRoundV (1 / 8) 0 (5 / 16 / 1) = 3 / 8 := by decide +kernel
+  simp only [if_true, this, one_mul]
 
 /-! ## non-vacuity of the new statements -/
 
